@@ -216,7 +216,7 @@ def build(work, tier):
         out += ['QXmppTask_%s_then_nested' % i for i in re.findall(r'\bUSER_REENTRY_(\w+)\(', body)]
         return out
 
-    HAVOC = ('  g_watt = nondet_int(); gh_runs = nondet_uint(); gh_total_runs = nondet_uint(); gh_delivered = nondet_cval(); g_stored = nondet_cval(); gh_boxes_live = nondet_uint();\n'
+    HAVOC = ('  g_watt = nondet_int(); gh_runs = nondet_uint(); gh_total_runs = nondet_uint(); gh_delivered = nondet_cval(); g_stored = nondet_cval(); gh_boxes_live = nondet_uint(); cval_garbage = nondet_cval();\n'
              '  gh_wctx = nondet_qobject(); gh_wctx_alive = nondet_bool(); gh_reentry_enabled = nondet_bool(); gh_reentering_id = nondet_int(); gh_nested_id = nondet_int();\n')
     proofs = []
 
@@ -225,7 +225,7 @@ def build(work, tier):
     # constrained by an equality, which CBMC's points-to analysis cannot follow into a later dereference.
     def is_inline(o):
         return (o.startswith('TaskPrivate_') and o not in ('TaskPrivate_invokeContinuation', 'TaskPrivate_ctor')) or o.endswith('_deleter') \
-            or re.match(r'QXmppTask_\w+_(hasResult|isFinished|ctor)$', o) is not None
+            or re.match(r'QXmppTask_\w+_(hasResult|isFinished|takeResult|ctor)$', o) is not None
 
     def proof(c, note, pid=None, extra_clauses='', extra_labels=(), **kw):
         sp, txt = F[c]
